@@ -1065,6 +1065,24 @@ def gen_summarize(seed):
         st = {"in": h, "out": g.new_handle(), "verb": "mutate", "kw": [["ck", e]]}
         if g.try_step(st):
             h = st["out"]
+    if rng.random() < 0.12:
+        # grouped only by constant columns: one group if there are rows, none if there are not
+        st = {"in": h, "out": g.new_handle(), "verb": "mutate", "kw": [["cg", lit(rng.choice([7, "c", True]))]] + ([["cg2", lit(1)]] if rng.random() < 0.3 else [])}
+        if g.try_step(st):
+            h = st["out"]
+            ints = [n for n, i in g.rr.env[h].vis if g.rr.env[h].cols[i].fam == "int" and g.rr.env[h].cols[i].name0 == "k"]
+            if rng.random() < 0.5 and ints:
+                fl = {"in": h, "out": g.new_handle(), "verb": "filter", "preds": [fn("lt", cname(ints[0]), lit(rng.choice([0, -5, 2])))]}
+                if g.try_step(fl):
+                    h = fl["out"]
+            gb = {"in": h, "out": g.new_handle(), "verb": "group_by", "cols": [cname(n) for n, _ in st["kw"]]}
+            if g.try_step(gb):
+                sm = g.step_summarize(gb["out"]) if rng.random() < 0.8 else {"in": gb["out"], "out": g.new_handle(), "verb": "summarize", "kw": []}
+                if sm is not None and g.try_step(sm):
+                    g.features.add("constant_group_key")
+                    mid = sm["out"]
+                    h = g.chain(mid, rng.randint(0, 1), {"filter": 2, "mutate": 2, "select": 1}, depth=1)
+                    return g.finish([mid] + ([h] if h != mid else []))
     nkeys = rng.choice([0, 1, 1, 2, 3])
     t = g.rr.env[h]
     vis = [(n, i) for n, i in t.vis if t.cols[i].fam in ("int", "bool", "str") and t.cols[i].name0 != "k"]
@@ -1292,6 +1310,39 @@ def gen_join(seed):
         hr = g.add_table("u", cols=rng.choice([["k", "g", "x", "s"], ["k", "g", "f", "s"], ["k", "y", "s"]]), shape=kind, nrows=nr)
         hl = g.chain(hl, rng.randint(0, 2), {"mutate": 2, "filter": 2, "select": 1, "rename": 1, "alias": 0.4}, depth=1)
         hr = g.chain(hr, rng.randint(0, 2), {"mutate": 2, "filter": 2, "select": 1, "rename": 1, "alias": 0.4}, depth=1)
+        if rng.random() < 0.35:
+            # a computed column that is not null for null input (or a constant) on a side that an outer join pads with
+            # nulls: unmatched rows must show null there (SQL needs a subquery: mostly an alias() follows)
+            side = rng.choice(["r", "r", "l"])
+            hh = hr if side == "r" else hl
+            t0 = g.rr.env[hh]
+            by_fam = {}
+            for n, i in t0.vis:
+                by_fam.setdefault(t0.cols[i].fam, []).append(cname(n))
+            forms = [["cst", lit(rng.choice([5, "c", True]))]]
+            if by_fam.get("int"):
+                c0 = rng.choice(by_fam["int"])
+                forms += [["nn", fn("fill_null", c0, lit(0))], ["isn", fn("is_null", c0)], ["co", fn("coalesce", c0, lit(-1))], ["hm", fn("hmax", c0, lit(2))],
+                          ["cs", {"k": "case", "cases": [[fn("gt", c0, lit(1)), lit(1)]], "default": lit(0)}], ["strict", fn("add", c0, lit(1))]]
+            if by_fam.get("str"):
+                s0 = rng.choice(by_fam["str"])
+                forms += [["sn", fn("fill_null", s0, lit("-"))], ["snn", fn("is_not_null", s0)]]
+            if by_fam.get("bool"):
+                b0 = rng.choice(by_fam["bool"])
+                forms += [["bo", fn("or", b0, lit(True))], ["ba", fn("and", b0, lit(False))]]
+            kw = [[f"{nm}_{side}", e] for nm, e in rng.sample(forms, min(len(forms), rng.randint(1, 3)))]
+            stm = {"in": hh, "out": g.new_handle(), "verb": "mutate", "kw": kw}
+            if g.try_step(stm):
+                hh = stm["out"]
+                g.features.add("not_null_preserving_column")
+                if rng.random() < 0.7:
+                    al = {"in": hh, "out": g.new_handle(), "verb": "alias", "keep": rng.random() < 0.5}
+                    if g.try_step(al):
+                        hh = al["out"]
+                if side == "r":
+                    hr = hh
+                else:
+                    hl = hh
     if g.rr.env[hl].n * g.rr.env[hr].n > 40000:
         return g.finish([hl])
     st = None
